@@ -95,18 +95,20 @@ type sub struct {
 }
 
 type drvLine struct {
-	Pkg     string `json:"pkg"`
-	P       string `json:"p"`
-	M       string `json:"m"`
-	Serve   sub    `json:"serve"`
-	Pfx     sub    `json:"pfx"`
-	NoPfx   sub    `json:"nopfx"`
-	Esc     sub    `json:"esc"`
-	EscU    sub    `json:"escU"`
-	Bad     sub    `json:"bad"`
-	Find    sub    `json:"find"`
-	FindEsc sub    `json:"findesc"`
-	FindPfx sub    `json:"findpfx"`
+	Pkg      string `json:"pkg"`
+	P        string `json:"p"`
+	M        string `json:"m"`
+	Serve    sub    `json:"serve"`
+	Pfx      sub    `json:"pfx"`
+	NoPfx    sub    `json:"nopfx"`
+	Esc      sub    `json:"esc"`
+	EscU     sub    `json:"escU"`
+	Bad      sub    `json:"bad"`
+	Find     sub    `json:"find"`
+	FindEsc  sub    `json:"findesc"`
+	FindPfx  sub    `json:"findpfx"`
+	EscR     sub    `json:"escR"`
+	FindEscR sub    `json:"findescR"`
 }
 
 type tsub struct {
@@ -441,6 +443,7 @@ func serveSets(r *core.Run, known string, sets []routeSet, paths []string) error
 		o := map[string]any{"k": "req", "p": chars(d.P), "m": d.M,
 			"serve": project(d.Serve, in.rs, &d.Find), "pfx": project(d.Pfx, in.rs, &d.FindPfx), "nopfx": project(d.NoPfx, in.rs, nil),
 			"esc": project(d.Esc, in.rs, &d.FindEsc), "escU": project(d.EscU, in.rs, &d.Find), "bad": project(d.Bad, in.rs, &d.Find),
+			"escR": project(d.EscR, in.rs, &d.FindEscR), "findescR": project(d.FindEscR, in.rs, nil),
 			"find": project(d.Find, in.rs, nil), "findesc": project(d.FindEsc, in.rs, nil), "findpfx": project(d.FindPfx, in.rs, nil)}
 		b, _ := json.Marshal(o)
 		groups[d.Pkg] = append(groups[d.Pkg], b)
